@@ -59,6 +59,24 @@ def make_target(lab):
     return P.expose(Target)
 
 
+ROT = {}
+
+
+def rotate(key, values):
+    """boundary values are used in rotation, so that each of them is certain to be tried"""
+    ROT[key] = ROT.get(key, -1) + 1
+    return values[ROT[key] % len(values)]
+
+
+HEADER_FIELDS = [(4, "!H"), (6, "!B"), (7, "!B"), (8, "!H"), (10, "!H"), (12, "!I"), (16, "!I"), (36, "!H"), (38, "!H")]
+
+
+def boundary(fmt):
+    bits = {"!B": 8, "!H": 16, "!I": 32}[fmt]
+    top = (1 << bits) - 1
+    return [0, 1, top, top - 1, 1 << (bits - 1), (1 << (bits - 1)) - 1, top - 7, top - 15]
+
+
 def hostile_bytes(item, ser, rng, seq, base="invoke"):
     """base: the valid message the structural mutations start from (an INVOKE, or the CONNECT that opens a connection)"""
     from Pyro5 import protocol, serializers
@@ -90,6 +108,20 @@ def hostile_bytes(item, ser, rng, seq, base="invoke"):
         data = L.patch(req, 12, "!I", max(0, len(req) - hdr - annsize - rng.choice([1, 2, 9]))) + b"\x00" * 40
     elif item == "ann_overrun":
         data = L.patch(req, 44, "!I", rng.choice([4, 100, 0xffffffff]))
+    elif item == "ann_negative":
+        # chunk lengths that are negative when read as signed, in particular -8: the parser must not go backwards or stand still
+        data = L.patch(req, 44, "!I", rotate("annneg", [0xfffffff8, 0xffffffff, 0xfffffff0, 0x80000000, 0xfffffffc, 0xfffffff7, 0xfffffff9]))
+    elif item == "hdr_boundary":
+        off, fmt = rotate("hdrfield", HEADER_FIELDS)
+        data = L.patch(req, off, fmt, rotate("hdrval%d" % off, boundary(fmt)))
+        if off == 12 or off == 16:
+            data += b"\x00" * 40      # a length field that is too small leaves a surplus that is read as the next header
+    elif item in ("trunc_reset", "stall_partial"):
+        data = req[:rotate(item, [1, 5, 6, 20, 39, 40, 41, 40 + annsize - 1, 40 + annsize, 40 + annsize + 1, len(req) - 1])]
+        close = "reset" if item == "trunc_reset" else "stall"
+    elif item == "reset_idle":
+        data = b""
+        close = "reset"
     elif item == "ann_badid":
         data = req[:40] + b"\xff\xfe\xfd\xfc" + req[44:]
     elif item == "ann_len_mismatch":
@@ -165,6 +197,7 @@ def run_scripts(scripts, servertype, timeout, seed, full=False):
             hang = False
             witness_ok = fresh_ok = True
             att = {1: Attacker(), 2: Attacker()}
+            stalled = []
             w = blocker = None
             tok = [100]
 
@@ -188,6 +221,22 @@ def run_scripts(scripts, servertype, timeout, seed, full=False):
                     raise
                 except Exception:
                     return False
+
+            def stay_active(duration):
+                """let virtual time pass while the well-behaved clients keep talking (an idle connection would itself time out)"""
+                nonlocal witness_ok
+                t = 0.0
+                while t < duration:
+                    sc.sleep(1.0)
+                    t += 1.0
+                    witness_ok = wcall() and witness_ok
+                    if blocker is not None:
+                        try:
+                            blocker.echo(0)
+                        except (S.Hang, S.SchedAbort):
+                            raise
+                        except Exception:
+                            witness_ok = False
 
             def drop(a):
                 if a.rc is not None:
@@ -216,7 +265,15 @@ def run_scripts(scripts, servertype, timeout, seed, full=False):
                         lab.log.append({"e": "First", "c": at.rc.cid, "accept": False, "mustreason": False})
                         data, close = hostile_bytes(step["item"], ser, rng, at.seq, base="connect" if step["pre"] else "invoke")
                         at.rc.send(data)
-                        if close:
+                        if close == "reset":
+                            at.rc.abort()
+                        elif close == "stall" and timeout:
+                            stay_active(timeout + 1.0)       # silence: the server's own timeout must end the read
+                            stalled.append(at.rc)            # ... and the silent peer stays connected until the end of the script
+                            lab.log.append({"e": "Ended", "c": at.rc.cid})
+                            at.rc = None
+                            continue
+                        elif close:
                             at.rc.close()
                         sc.quiesce()
                         lab.log.append({"e": "Ended", "c": at.rc.cid})
@@ -242,12 +299,15 @@ def run_scripts(scripts, servertype, timeout, seed, full=False):
                         data, close = hostile_bytes(step["item"], ser, rng, at.seq,
                                                     base="connect" if newconn and step["pre"] and rng.random() < 0.5 else "invoke")
                         at.rc.send(data)
-                        if close:
-                            at.rc.close()
+                        if close == "stall" and timeout:
+                            stay_active(timeout + 1.0)       # silence: the server's own timeout must end the read
+                        elif close:
+                            if close == "reset":
+                                at.rc.abort()
+                            else:
+                                at.rc.close()
                             lab.log.append({"e": "Ended", "c": at.rc.cid})
                             at.rc = None
-                        elif timeout and step["item"] in ("datalen_short",):
-                            pass
                         sc.quiesce()
                         if at.rc is not None and at.rc.server_closed():
                             lab.log.append({"e": "Ended", "c": at.rc.cid})
@@ -261,6 +321,16 @@ def run_scripts(scripts, servertype, timeout, seed, full=False):
                         witness_ok = wcall() and witness_ok
                     elif a == "fresh":
                         fresh_ok = fresh() and fresh_ok
+                if stalled:
+                    # a worker becomes free while the silent peers are still connected: a new client must get in
+                    lab.log.append({"e": "Ended", "c": 2})
+                    blocker._pyroRelease()
+                    blocker = None
+                    sc.quiesce()
+                    fresh_ok = fresh() and fresh_ok
+                    for rc in stalled:
+                        rc.close()
+                    sc.quiesce()
                 # afterwards: attackers leave, the witness still gets its own answers, new clients are accepted
                 for at in att.values():
                     if at.rc is not None:
@@ -317,7 +387,7 @@ def run(ctx):
     tlc.mc(ctx, "Daemon", cfg_text=c08.MC_CFG % (c08.SAMPLES[1], ctx.pick(8, 9)))
     s1 = tlc.gen(ctx, "Gen_Hostile", cfg_text=GEN_CFG % 1)
     s2 = tlc.gen(ctx, "Gen_Hostile", cfg_text=GEN_CFG % 2)
-    if len(s1) != 108 or len(s2) < 10000:
+    if len(s1) != 128 or len(s2) < 10000:
         raise util.MachineryError("attack script generation incomplete")
     walks = tlc.gen(ctx, "Gen_Hostile", cfg_text=GEN_CFG % 5, workers=1,
                     extra=("-simulate", "num=%d" % ctx.pick(500, 6000), "-depth", "7", "-seed", str(ctx.seed + 5)))
@@ -329,7 +399,7 @@ def run(ctx):
     for st in ("multiplex", "thread"):
         for tmo in (0.0, 3.0):
             js = [(s, sers[(i + (st == "thread") + (tmo > 0)) % 4]) for i, s in enumerate(scripts)
-                  if not ctx.quick or (i + (st == "thread") * 2 + (tmo > 0)) % 4 in (0, 1) or i < 108]
+                  if not ctx.quick or (i + (st == "thread") * 2 + (tmo > 0)) % 4 in (0, 1) or i < 128]
             if ctx.quick and tmo:
                 js = js[::3]
             traces += run_scripts(js, st, tmo, ctx.seed)
